@@ -34,6 +34,12 @@ def run_one(kind, prop, patch, keep=False, build=True):
     try:
         tree = os.path.join(scratch, 'repo')
         subprocess.run(['rsync', '-a', '--exclude', '.git', '--exclude', '/dirk', REPO + '/', tree + '/'], check=True)
+        if h.get('base'):
+            # the patch applies on top of another corpus patch (a mutant of a refactored tree)
+            pb = subprocess.run(['patch', '-p1', '-s', '--no-backup-if-mismatch', '-i', os.path.join(VERIF, h['base'])], cwd=tree, capture_output=True, text=True)
+            if pb.returncode != 0:
+                res.update(status='patch-failed', detail='base: ' + (pb.stdout + pb.stderr)[-400:])
+                return res
         p = subprocess.run(['patch', '-p1', '-s', '--no-backup-if-mismatch', '-i', patch], cwd=tree, capture_output=True, text=True)
         if p.returncode != 0:
             res.update(status='patch-failed', detail=(p.stdout + p.stderr)[-400:])
